@@ -451,7 +451,33 @@ func c11Run(w *W) {
 		// that stays silent for ever is C10's dedicated cell, a known finding)
 		silentL.Close()
 	}
-	s.Close()
+	// the socket is closed by several goroutines at the same moment (or once
+	// more, if a task of the program closed it already): every Close returns,
+	// nil or the closed error, and at most one of them nil
+	var closers []*Call
+	for k := 1 + w.Choose(simrt.SProg, 4); k > 0; k-- {
+		closers = append(closers, w.Do("Socket.Close(concurrent)", func() (interface{}, error) { return nil, s.Close() }))
+	}
+	nilCloses := 0
+	for _, c := range closers {
+		if !c.Wait(5 * time.Second) {
+			w.Failf("C11/call-never-returns", "%d goroutines called Socket.Close at the same moment; one has not returned after 5s%s", len(closers), w.BlockedReport())
+			return
+		}
+		if c.Err == nil {
+			nilCloses++
+		} else if c.Err != mangos.ErrClosed {
+			w.Failf("C11/result-outside-contract:Close", "concurrent Socket.Close returned %v", c.Err)
+			return
+		}
+	}
+	if nilCloses > 1 {
+		w.Failf("C11/result-outside-contract:Close", "%d goroutines closed the socket at the same moment and %d of them were told they had closed it", len(closers), nilCloses)
+		return
+	}
+	if len(closers) > 1 {
+		w.Probe("socket-closed-by-several-goroutines-at-once")
+	}
 	for _, ps := range peers {
 		ps.Close()
 	}
